@@ -55,6 +55,7 @@ def c08(tier):
     run_family(chk, "server", "prod", ["--seed", s, "--n", 0, "--behaviours", beh], [ST], "tlc-behaviours")
     run_family(chk, "server", "prod", ["--seed", s, "--n", 8000 if thorough else 1200, "--mode", "healthy"], [ST], "healthy")
     run_family(chk, "server", "prod", ["--seed", s + 3, "--n", 4000 if thorough else 600, "--mode", "wfault"], [ST], "wfault")
+    run_family(chk, "server", "prod", ["--seed", s + 6, "--n", 4000 if thorough else 600, "--mode", "badcall"], [ST], "badcall")
     run_family(chk, "server", "small", ["--seed", s + 1, "--n", 4000 if thorough else 600, "--mode", "healthy"], [ST],
                "healthy-small")
     chk.nontrivial = chk.traces_ok
